@@ -1,5 +1,6 @@
 import PgBifrost.Proofs.Aggregator
 import PgBifrost.Spec.Aggregator
+import PgBifrost.Gen.AggSrc
 /-!
 # C19 — operational statistics are conserved by aggregation (property theorems)
 
@@ -180,5 +181,22 @@ theorem agg_collision_breaks_conservation :
        .scan [(100, 2000000000)]]
     reportedValue (run cfg10 {} ops) ⟨"ab", "c", .count, "count"⟩ 100 = 3
     ∧ reportedValue (run cfg10 {} ops) ⟨"a", "bc", .count, "count"⟩ 100 = 0 := by decide
+
+/-- **the aggregate of the model is `aggregate.go`** (`aggregate_as_in_source`; the file is TRANSLATED on every
+run): a new aggregate starts with minimum `MaxInt64` and maximum `MinInt64`; `update` adds to sum and count and,
+for a histogram, lowers the minimum / raises the maximum by strict comparison and takes the average of the NEW
+sum and count; `toStats` of a histogram adds `_avg`, `_max`, `_min` carrying exactly those fields. -/
+theorem aggregate_as_in_source (a : PgBifrost.Aggregator.Agg) (s : PgBifrost.Aggregator.Stat) (t : Int) :
+    PgBifrost.Gen.AggSrc.update a s = a.update s ∧
+    (PgBifrost.Aggregator.newAgg s t).min = PgBifrost.Gen.AggSrc.initMin ∧
+    (PgBifrost.Aggregator.newAgg s t).max = PgBifrost.Gen.AggSrc.initMax ∧
+    (a.id.typ = .histogram → a.toStats = a.mainStat ::
+        (PgBifrost.Gen.AggSrc.derived a).map fun p => ⟨a.id.withSuffix p.1, p.2, a.ts⟩) ∧
+    (a.id.typ = .count → a.toStats = [a.mainStat]) := by
+  refine ⟨?_, rfl, rfl, ?_, ?_⟩
+  · unfold PgBifrost.Gen.AggSrc.update PgBifrost.Aggregator.Agg.update
+    cases a.id.typ <;> rfl
+  · intro h; simp [PgBifrost.Aggregator.Agg.toStats, h, PgBifrost.Gen.AggSrc.derived]
+  · intro h; simp [PgBifrost.Aggregator.Agg.toStats, h]
 
 end PgBifrost.Props.C19
